@@ -55,18 +55,19 @@ theorem advanceAll_enc {w : Nat} (eqv : Nat → Nat → Bool) (a : Nat) (C : Nat
       ColEnc C r0 blks sts → BitsOK eqv a e r0 blks → -1 ≤ hin ∧ hin ≤ 1 → nextC C e r0 - C r0 = hin →
       ColEnc (nextC C e) r0 blks (advanceAll eqv a blks sts hin).1 ∧
       (advanceAll eqv a blks sts hin).1.length = sts.length ∧
-      (advanceAll eqv a blks sts hin).2 = nextC C e (r0 + rows sts.length blks) - C (r0 + rows sts.length blks) := by
+      (advanceAll eqv a blks sts hin).2 = nextC C e (r0 + rows sts.length blks) - C (r0 + rows sts.length blks) ∧
+      (-1 ≤ (advanceAll eqv a blks sts hin).2 ∧ (advanceAll eqv a blks sts hin).2 ≤ 1) := by
   intro blks
   induction blks with
   | nil =>
     intro sts r0 hin hc _ hh hb
     cases sts with
-    | nil => simp [advanceAll, ColEnc, rows, hb]
+    | nil => simp [advanceAll, ColEnc, rows, hb, hh]
     | cons s ss => simp [ColEnc] at hc
   | cons blk blks ih =>
     intro sts r0 hin hc hbits hh hb
     cases sts with
-    | nil => simp [advanceAll, ColEnc, rows, hb]
+    | nil => simp [advanceAll, ColEnc, rows, hb, hh]
     | cons s ss =>
       obtain ⟨hl1, hlw, henc, hdist, hrest⟩ := hc
       obtain ⟨hb1, hb2⟩ := hbits
@@ -90,9 +91,9 @@ theorem advanceAll_enc {w : Nat} (eqv : Nat → Nat → Bool) (a : Nat) (C : Nat
         exact ⟨this.1, this.2.1⟩
       have ih' := ih ss (r0 + blk.length) (advanceBlock (blk.length - 1) (peq w eqv blk a) hin s).2 hrest hb2
         (by rw [k3]; exact hrange) (by rw [k3])
-      obtain ⟨i1, i2, i3⟩ := ih'
+      obtain ⟨i1, i2, i3, i4⟩ := ih'
       simp only [advanceAll, List.length_cons, rows]
-      refine ⟨⟨hl1, hlw, EncB.congr hloc k1, k2, i1⟩, by rw [i2], ?_⟩
+      refine ⟨⟨hl1, hlw, EncB.congr hloc k1, k2, i1⟩, by rw [i2], ?_, i4⟩
       rw [i3]
       simp only [Nat.add_assoc]
 
@@ -278,7 +279,7 @@ theorem invAll_step {w : Nat} (eqv : Nat → Nat → Bool) (p u : List Nat) (a k
   have hC0 : ∀ r, 0 ≤ (fun r => (cell (unitW eqv) p u r : Int)) r := by intro r; simp
   have key := advanceAll_enc eqv a (fun r => (cell (unitW eqv) p u r : Int)) (matchBits eqv p a)
     (nextC_nonneg _ _ hC0) blks sts 0 0 inv.col hbits (by omega) (by simp [nextC, cell_zero])
-  obtain ⟨k1, k2, _⟩ := key
+  obtain ⟨k1, k2, _, _⟩ := key
   have hrows : rows (advanceAll eqv a blks sts 0).1.length blks = p.length := by
     rw [k2, inv.len, rows_all, hflat]
   have he : ∀ i, (hi : i < p.length) → matchBits eqv p a i = eqv p[i] a := by
